@@ -101,10 +101,15 @@ def cross_correlation_shift(
         x = np.fft.fftfreq(cc.shape[0], 1 / cc.shape[0])
         y = np.fft.fftfreq(cc.shape[1], 1 / cc.shape[1])
         mask = x[:, None] ** 2 + y[None, :] ** 2 >= max_shift**2
-        cc_real[mask] = 0.0
+        # exclude these lags from the peak search only; the sub-pixel refinement below
+        # must see the true correlation values next to a peak at the edge of the search disc
+        cc_search = cc_real.copy()
+        cc_search[mask] = 0.0
+    else:
+        cc_search = cc_real
 
     # Coarse peak
-    peak = xp.unravel_index(xp.argmax(cc_real), cc_real.shape)
+    peak = xp.unravel_index(xp.argmax(cc_search), cc_search.shape)
     x0, y0 = peak
 
     # Parabolic refinement
